@@ -47,7 +47,7 @@ Lemma nc_sem_un u a : nc (sem_un u a).
 Proof. destruct u; exact I. Qed.
 
 Lemma nc_sem_bin o a b : nc (sem_bin o a b).
-Proof. destruct o; simpl; try exact I; unfold arith_error; match goal with |- context[if ?c then _ else _] => destruct c end; exact I. Qed.
+Proof. destruct o; simpl; try exact I; unfold arith_error, too_complex; repeat match goal with |- context[if ?c then _ else _] => destruct c end; exact I. Qed.
 
 Lemma nc_eval enc sym dot e : nc (Arith.eval enc sym dot e).
 Proof.
